@@ -16,7 +16,8 @@ checks, na = [], []
 for p in props:
     pid = p['id']
     path = os.path.join(VERIF, 'checks', pid.lower() + '.py')
-    if not os.path.exists(path):
+    ready = open(os.path.join(VERIF, 'checks', 'READY')).read().split()
+    if not os.path.exists(path) or pid not in ready:
         na.append({'property_id': pid, 'reason': 'check not built yet (planned in DESIGN.md section 4); nothing is claimed for it'})
         continue
     m = importlib.import_module('checks.' + pid.lower())
